@@ -7,8 +7,11 @@ import Mathlib.Data.Rat.Floor
 import Mathlib.Algebra.Order.Field.Rat
 /-! # C17 — Symbolic comparisons agree with Fortran integer arithmetic
 
-Model: `PsyVerif/Model/SymMaths.lean`.  `toSym brk` is the `SymPyWriter` translation (`brk = false` is the
-pinned tree, where `(a**k)**m` reaches SymPy as `a**(k**m)`); `evalQ` is what SymPy reasons about (exact
+Model: `PsyVerif/Model/SymMaths.lean`.  `toSym brk` is the `SymPyWriter` translation.  The DEPLOYED model is
+`brk = true` (since /repo commit ab94ce4 the inherited `FortranWriter.binaryoperation_node` brackets a left operand
+of `**`; the harness treats an unbracketed live writer as a broken correspondence and every wrong verdict on a
+left-nested power as a failing input).  `brk = false` is the writer of the pinned snapshot, where `(a**k)**m`
+reached SymPy as `a**(k**m)`; it is kept for the kernel-checked counterexamples only; `evalQ` is what SymPy reasons about (exact
 rational division, floored `Mod`, symbols and array functions arbitrary); `evalF` is Fortran.
 
 SymPy (`simplify`, `expand`, `solveset`) is an external library.  It enters in two ways:
@@ -18,7 +21,7 @@ SymPy (`simplify`, `expand`, `solveset`) is an external library.  It enters in t
   procedure `normQ`, and `modelEqual / modelNever / modelSolve / modelExpand` are compared with the real
   SymPy-based functions by the correspondence check — theorems `…_partial`.
 
-The full statement `C17_statement` is FALSE of the pinned code (integer `/`, MOD, left-nested `**`); it is kept as
+The full statement `C17_statement` is FALSE of the code (integer `/`, MOD; on the pinned snapshot also left-nested `**`); it is kept as
 a `def`, refuted on concrete witnesses, and proved under the decidable side condition `frag brk e = true`
 (no `/`, no MOD, and — while the writer does not bracket — no left-nested `**`). -/
 namespace C17
